@@ -172,3 +172,27 @@ Proof.
       * right. apply Nat.eqb_eq. auto.
     + destruct (IH _ _ _ Hx) as [H|(H1 & H2)]; [left; auto|right; split; [right; auto|auto]].
 Qed.
+
+(* minimum-area sub-basins that do not end at a pit drain more than the area threshold, and cutting them off leaves
+   more than the threshold in the basin downstream *)
+Theorem area_outlet_condition ds main uparea amin l : forall upa sb idxs x,
+  In x (snd (fold_left (area_step ds main uparea amin) l (upa, sb, idxs))) -> In x idxs \/
+  (In x l /\ (dsf ds x = x \/ amin < nth x uparea 0)).
+Proof.
+  induction l as [|i l IH]; intros upa sb idxs x Hx; cbn [fold_left] in Hx; [left; exact Hx|].
+  assert (Hstep : exists upa' sb' idxs', area_step ds main uparea amin (upa, sb, idxs) i = (upa', sb', idxs') /\
+            (forall y, In y idxs' -> In y idxs \/ (y = i /\ (dsf ds i = i \/ amin < nth i uparea 0)))).
+  { unfold area_step. destruct (Nat.eqb_spec (dsf ds i) i) as [Ep|Np].
+    - eexists; eexists; eexists; split; [reflexivity|]. intros y Hy. apply in_app_or in Hy.
+      destruct Hy as [Hy|[<-|[]]]; auto.
+    - destruct ((nth (dsf ds i) upa 0 - nth i uparea 0 >? amin) && (nth i uparea 0 >? amin)) eqn:Ec;
+        [|eexists; eexists; eexists; split; [reflexivity|auto]].
+      apply andb_true_iff in Ec. destruct Ec as [_ Ec]. apply Z.gtb_lt in Ec.
+      destruct (negb (nth (dsf ds i) uparea 0 - nth i uparea 0 >? amin) || negb (nth (dsf ds i) main (length ds) =? i)%nat);
+        destruct (negb (nth (dsf ds i) main (length ds) =? i)%nat);
+        eexists; eexists; eexists; (split; [reflexivity|]); auto;
+        intros y Hy; apply in_app_or in Hy; destruct Hy as [Hy|[<-|[]]]; auto. }
+  destruct Hstep as (upa' & sb' & idxs' & E & Hsub). rewrite E in Hx.
+  destruct (IH _ _ _ _ Hx) as [H|(H1 & H2)]; [|right; split; [right; auto|auto]].
+  destruct (Hsub x H) as [H'|(-> & H')]; [left; auto|right; split; [left; auto|auto]].
+Qed.
